@@ -45,14 +45,22 @@ WRITE_TABLE = {
 
 
 def _is_memo_store(stmt, attr):
-    """self.<attr> = ... lexically inside `if self.<attr> is None:`"""
-    for a in A.ancestors(stmt):
-        if isinstance(a, ast.If):
-            t = a.test
-            if isinstance(t, ast.Compare) and len(t.ops) == 1 and isinstance(t.ops[0], ast.Is) \
-                    and A.is_self_attr(t.left, attr) and A.is_const(t.comparators[0], None) \
-                    and any(x is stmt for s in a.body for x in ast.walk(s)):
-                return a
+    """`self.<attr> = ...` on a path where `self.<attr> is None` holds: inside `if self.<attr> is None:` or after the
+    guard clause `if self.<attr> is not None: return self.<attr>`. Returns the statements that compute the memo."""
+    fn = A.enclosing_function(stmt)
+    if fn is None:
+        return None
+    for test, truth in flow.guards_of(stmt, fn):
+        t, neg = A.strip_not(test)
+        eff = (truth != neg)
+        if isinstance(t, ast.Compare) and len(t.ops) == 1 and A.is_self_attr(t.left, attr) and A.is_const(t.comparators[0], None):
+            is_none = isinstance(t.ops[0], ast.Is)
+            if (is_none and eff) or (isinstance(t.ops[0], ast.IsNot) and not eff):
+                # the enclosing `if` body if there is one, else the function body (guard-clause form)
+                for a in A.ancestors(stmt):
+                    if isinstance(a, ast.If) and a.test is test:
+                        return type('Memo', (), {'body': a.body})()
+                return type('Memo', (), {'body': [s for s in fn.body if not (isinstance(s, ast.If) and s.test is test)]})()
     return None
 
 
